@@ -478,6 +478,135 @@ def fam_range_headers():
 FAMILIES[("range", "parse")] = ("serve_witness", fam_range_headers)
 
 
+
+# ---------------------------------------------------------------- RFC 7232 oracle (written from C04) for native replays
+import email.utils as _eu
+import calendar as _cal
+
+
+def http_date(secs):
+    return _eu.formatdate(secs, usegmt=True)
+
+
+def parse_date(v):
+    try:
+        t = _eu.parsedate(v)
+        return _cal.timegm(t) if t else None
+    except Exception:
+        return None
+
+
+def tag_list(v):
+    """'*' -> '*'; list of tags; None if malformed."""
+    if v == "*":
+        return "*"
+    out, i = [], 0
+    while i < len(v):
+        m = _re.match(r'(W/)?"[^"]*"', v[i:])
+        if not m:
+            return None
+        out.append(m.group(0))
+        i += m.end()
+        if i < len(v):
+            if v[i] != ",":
+                return None
+            i += 1
+            while i < len(v) and v[i] in " \t":
+                i += 1
+    return out
+
+
+def _opaque(t):
+    return t[2:] if t.startswith("W/") else t
+
+
+def expected_cond(sc):
+    """Returns 412 / 304 / None (continue) per the statement of C04, or 'skip' if validators are malformed."""
+    h = dict(sc.get("headers", []))
+    etag = sc.get("etag")
+    lm = sc.get("lm")
+    lm_sec = int(lm.split(".")[0]) if lm and not lm.startswith("now") else None
+    if lm and lm.startswith("now"):
+        return "skip"
+    im, inm = h.get("if-match"), h.get("if-none-match")
+    ius, ims = h.get("if-unmodified-since"), h.get("if-modified-since")
+    pf = False
+    if im is not None:
+        tl = tag_list(im)
+        if tl is None:
+            return "skip"
+        pf = not (tl == "*" or (etag is not None and any(t == etag and not t.startswith("W/") for t in tl)))
+    elif ius is not None and lm_sec is not None:
+        d = parse_date(ius)
+        if d is None:
+            return "skip"
+        pf = d < lm_sec
+    if ius is not None and parse_date(ius) is None:
+        return "skip"
+    if ims is not None and parse_date(ims) is None:
+        return "skip"
+    if pf:
+        return 412
+    nm = False
+    if inm is not None:
+        tl = tag_list(inm)
+        if tl is None:
+            return "skip"
+        nm = tl == "*" or (etag is not None and any(_opaque(t) == _opaque(etag) for t in tl))
+    elif ims is not None and lm_sec is not None:
+        nm = lm_sec <= parse_date(ims)
+    return 304 if nm else None
+
+
+def oracle_cond(pid, sc, ob):
+    if pid not in ("C04", "C14"):
+        return None
+    if ob["panic"] is not None:
+        return None
+    exp = expected_cond(sc)
+    if exp == "skip":
+        return None
+    st = ob["status"]
+    if exp == 412 and st != 412:
+        return "expected 412 (precondition failed per RFC 7232), got %d" % st
+    if exp == 304 and st != 304:
+        return "expected 304, got %d" % st
+    if exp is None and st in (412, 304):
+        return "expected range processing to continue, got %d" % st
+    return None
+
+
+def fam_cond():
+    out = []
+    k = 0
+    LM = 1000000000
+    tags = [None, "*", '"x"', '"y"', 'W/"x"', '"y", "x"', '"a, b", "x"']
+    dates = [None, http_date(LM - 10), http_date(LM), http_date(LM + 10)]
+    for etag in (None, '"x"', 'W/"x"'):
+        for lm in (None, "%d.0" % LM, "%d.500000000" % LM):
+            for im in tags:
+                for inm in tags:
+                    for ius in dates:
+                        for ims in dates:
+                            hs = []
+                            if im is not None: hs.append(("if-match", im))
+                            if inm is not None: hs.append(("if-none-match", inm))
+                            if ius is not None: hs.append(("if-unmodified-since", ius))
+                            if ims is not None: hs.append(("if-modified-since", ims))
+                            k += 1
+                            out.append({"id": "cd%d" % k, "method": "GET", "headers": hs, "len": 10, "etag": etag, "lm": lm, "scripts": ["N"], "extra_polls": 0})
+    return out
+
+
+FAMILIES[("cond", "parse_modified_hdrs")] = ("serve_witness", fam_cond)
+FAMILIES[("cond", "any_match")] = ("serve_witness", fam_cond)
+FAMILIES[("cond", "none_match")] = ("serve_witness", fam_cond)
+
+
+def all_serve_oracles(pid, sc, o):
+    return oracle_serve(pid, sc, o) or oracle_range(pid, sc, o) or oracle_cond(pid, sc, o)
+
+
 def try_upgrade(pid, ob, repo=None):
     """Look for a concrete failing input for the failed obligation `ob` of property `pid` on the real code."""
     fam = None
@@ -494,7 +623,7 @@ def try_upgrade(pid, ob, repo=None):
     mk = stream_line if is_stream else scenario_line
     lines = run_native(test, [mk(x) for x in scs], repo)
     for sc, ln in zip(scs, lines):
-        why = oracle_stream(pid, sc, parse_stream_obs(ln)) if is_stream else (oracle_serve(pid, sc, parse_obs(ln)) or oracle_range(pid, sc, parse_obs(ln)))
+        why = oracle_stream(pid, sc, parse_stream_obs(ln)) if is_stream else all_serve_oracles(pid, sc, parse_obs(ln))
         if why:
             ob["native_replay"] = {"status": "reproduced on the real code", "reproduced": True, "test": test, "scenario": sc, "scenario_line": mk(sc),
                                    "observation": ln, "violates": pid, "what": why, "searched": len(scs)}
@@ -516,7 +645,7 @@ def replay_file(path, repo=None):
     if nr["test"] == "stream_witness":
         why = oracle_stream(rec["property"], nr["scenario"], parse_stream_obs(ln))
     else:
-        why = oracle_serve(rec["property"], nr["scenario"], parse_obs(ln)) or oracle_range(rec["property"], nr["scenario"], parse_obs(ln))
+        why = all_serve_oracles(rec["property"], nr["scenario"], parse_obs(ln))
     print("scenario   :", nr["scenario_line"])
     print("observation:", ln)
     if why:
@@ -542,13 +671,13 @@ if __name__ == "__main__":
                         print(pid, why, stream_line(sc), "\n   ", ln)
         print(len(scs), "scenarios; oracle failures:", bad)
         sys.exit(0)
-    scs = {"mp": fam_multipart_faults, "sg": fam_single_faults, "rg": fam_range_headers}[fam]()
+    scs = {"mp": fam_multipart_faults, "sg": fam_single_faults, "rg": fam_range_headers, "cd": fam_cond}[fam]()
     lines = run_native("serve_witness", scs)
     bad = 0
     for sc, ln in zip(scs, lines):
         o = parse_obs(ln)
-        for pid in ("C01", "C02", "C03", "C07", "C12", "C13", "C20"):
-            why = oracle_serve(pid, sc, o) or oracle_range(pid, sc, o)
+        for pid in ("C01", "C02", "C03", "C04", "C07", "C12", "C13", "C20"):
+            why = all_serve_oracles(pid, sc, o)
             if why:
                 bad += 1
                 if bad < 15:
